@@ -312,7 +312,8 @@ def script_job(spec):
     from pydbml.classes import Table, Column, Expression, Enum, EnumItem, Reference, Index
     db = Database()
     for e in spec['enums']:
-        db.add(Enum(e['name'], [EnumItem(i) for i in e['items']], schema=e['schema']))
+        # an item note is no part of the CREATE TYPE statement: every other item gets one
+        db.add(Enum(e['name'], [EnumItem(i, note='note of ' + i if k % 2 else None) for k, i in enumerate(e['items'], 1)], schema=e['schema']))
     tabs = []
     for t in spec['tables']:
         tb = Table(t['name'], schema=t['schema'])
